@@ -15,7 +15,7 @@ pub fn get() -> FunctionDefinitions {
                 match self.0.apply(value, 0) {
                     Some(JsonValue::Object(map)) => Some(map.len().into()),
                     Some(JsonValue::Array(list)) => Some(list.len().into()),
-                    Some(JsonValue::String(str)) => Some(str.len().into()),
+                    Some(JsonValue::String(str)) => Some(str.chars().count().into()),
                     _ => None,
                 }
             }
